@@ -4,9 +4,9 @@ from ..drivers import objects as drv
 ID = "C15"
 LEVEL = "exploration"
 TECHNIQUE = ("runtime monitoring: shadow list of (channel, item) pairs stepped beside the real block; channel map parsed from the encoded bytes by the reference decoder after every operation")
-RULE = ("random sequences (5-25 ops) of add (automatic / explicit free / explicit taken channel), remove (by label for EMG; by index, item, bulk, bad index, foreign item for platform calibration), bulk add with / without channels, bulk assignment (valid and with a duplicate channel), encode->decode->continue, on EMG, platform-calibration and platform-data blocks starting empty, pre-filled, constructor-filled (calibration) or decoded from bytes; non-trivial = every sequence")
+RULE = ("platform calibration epilogue per case: bulk adds mixing explicit channels and None in one list, then bulk assignment of iterables derived from the block itself (the block, iter(block), its platforms list, reversed, a filtering generator, a view that asks the block when iterated); random sequences (5-25 ops) of add (automatic / explicit free / explicit taken channel), remove (by label for EMG; by index, item, bulk, bad index, foreign item for platform calibration), bulk add with / without channels, bulk assignment (valid and with a duplicate channel), encode->decode->continue, on EMG, platform-calibration and platform-data blocks starting empty, pre-filled, constructor-filled (calibration) or decoded from bytes; non-trivial = every sequence")
 ASSUMPTIONS = ["a refused automatic add is recorded, not judged", "after a refused bulk assignment only the invariants (equal length, unique channels, surviving items keep their channel) are demanded"]
-REQUIRED = {t: "oracle:C15.pairs==shadow oracle:C15.auto-channel-unused oracle:C15.explicit-channel oracle:C15.remove oracle:C15.bulk-assignment oracle:C15.roundtrip-pairs c15:emg:decoded c15:platCal:constructor-filled c15:platData:decoded".split() for t in ("quick", "thorough")}
+REQUIRED = {t: "oracle:C15.pairs==shadow oracle:C15.auto-channel-unused oracle:C15.explicit-channel oracle:C15.remove oracle:C15.bulk-assignment oracle:C15.roundtrip-pairs oracle:C15.bulk-add-mixed-explicit-and-automatic oracle:C15.bulk-assignment-from-own-pairs c15:emg:decoded c15:platCal:constructor-filled c15:platData:decoded".split() for t in ("quick", "thorough")}
 
 
 def plan(tier, seed):
